@@ -1088,15 +1088,13 @@ Qed.
 Lemma nonnil_ptr : forall r v, nonnil_at (PField r :: nil) (VPtr v) = nonnil_at (PField r :: nil) v.
 Proof. intros r v. destruct v; reflexivity. Qed.
 
-(* facts_hold: the non-nil facts the typechecker uses hold of the data built from every evaluator reply *)
-Theorem facts_hold : forall ts minimum allowed now g,
-  Eval.eval_group ts minimum allowed now = Eval.Ok g ->
-  forall sch nm cl gr id ex,
-    satisfies burrow_facts (data_of sch nm cl gr id ex (Eval.filter_view g)) = true.
+(* the non-nil facts the typechecker uses hold of the data built from any status whose listed partitions carry their
+   first and last commit *)
+Lemma facts_of_ends : forall fv,
+  Forall (fun s => Eval.ps_start s <> None /\ Eval.ps_end s <> None) (Eval.gs_partitions fv) ->
+  forall sch nm cl gr id ex, satisfies burrow_facts (data_of sch nm cl gr id ex fv) = true.
 Proof.
-  intros ts minimum allowed now g H sch nm cl gr id ex.
-  pose proof (listed_partitions_have_ends _ _ _ _ _ H) as Hends.
-  set (fv := Eval.filter_view g) in *.
+  intros fv Hends sch nm cl gr id ex.
   assert (Hgen : forall tail, (forall p, In p (Eval.gs_partitions fv) -> nonnil_at tail (part_val sch nm p) = true) ->
             nonnil_at (p_parts ++ tail) (data_of sch nm cl gr id ex fv) = true).
   { intros tail Ht. unfold p_parts, data_of. cbn [app].
@@ -1113,6 +1111,32 @@ Proof.
     eapply nonnil_build; [reflexivity|]. intros v Hv. inversion Hv; subst v.
     destruct (Eval.ps_start p); [reflexivity|contradiction].
   - intros p Hp. reflexivity.
+Qed.
+
+(* facts_hold: ... in particular of the data built from every evaluator reply *)
+Theorem facts_hold : forall ts minimum allowed now g,
+  Eval.eval_group ts minimum allowed now = Eval.Ok g ->
+  forall sch nm cl gr id ex,
+    satisfies burrow_facts (data_of sch nm cl gr id ex (Eval.filter_view g)) = true.
+Proof.
+  intros ts minimum allowed now g H. apply facts_of_ends. eapply listed_partitions_have_ends; eauto.
+Qed.
+
+(* The reply the evaluator sends for a group it does not know (caching.go:137-147): NOTFOUND, complete 1.0, no
+   partitions, no max-lag partition.  The notifier drops it before any template runs (coordinator.go:400-404;
+   Notifier.v live_resp / on_response); templates would render on it all the same. *)
+Definition notfound_reply : Eval.gstatus :=
+  (Eval.mkGstatus Eval.StNotFound F32.f32_one [] 0%Z None 0%Z).
+
+Theorem renders_with_ends : forall sch t,
+  embed_ok sch = true -> typecheck sch t burrow_facts = true ->
+  forall fv, Forall (fun s => Eval.ps_start s <> None /\ Eval.ps_end s <> None) (Eval.gs_partitions fv) ->
+  forall nm cl gr id ex, exists out, exec sch t (data_of sch nm cl gr id ex fv) = Ok out.
+Proof.
+  intros sch t He Ht fv Hends nm cl gr id ex.
+  eapply typecheck_sound; eauto.
+  - apply data_has_schema; assumption.
+  - apply facts_of_ends; assumption.
 Qed.
 
 (* C20, second clause, end to end: a template accepted by the typechecker renders without error for every
